@@ -237,17 +237,24 @@ def copyAssign (h : Heap α) (self other : Arr) : Heap α × Arr :=
     let (h2, p) := h1.alloc lay.numElements
     (h2.copyN other.base p lay.numElements.toNat, ⟨p, lay⟩)
 
-/-- `subarray::operator=` through `elements()` (array_ref.hpp:2062-2067, 2092-2104, 2141-2153) and
-    `elements_range_t::operator=` (1001-1013): `assert(size() == other.size()); if(!is_empty()) adl_copy(begin(other), end(other), begin())`.
+/-- `elements_range_t::operator=(elements_range_t&&)` array_ref.hpp:996-999:
+    `if(!is_empty()) adl_copy(other.begin(), other.end(), begin())`.
     Destination view `dv` in block `db`, source view `sv` in block `sb`. -/
-def assignElems (h : Heap α) (sb : Option BlockId) (sv : View) (db : Option BlockId) (dv : View) : Heap α :=
-  let h := h.check (dv.numElements == sv.numElements)
+def copyElems (h : Heap α) (sb : Option BlockId) (sv : View) (db : Option BlockId) (dv : View) : Heap α :=
   if dv.isEmpty then h
   else
     let n := sv.numElements.toNat
     match elemAddrs sv n, elemAddrs dv n with
     | some ss, some ds => h.copyAddrs sb ss db ds
     | _, _ => h.setUB
+
+/-- `subarray::operator=` through `elements()` (array_ref.hpp:2062-2067, 2141-2145): `assert(extension() == other.extension())`,
+    then `elements_range_t::operator=(OtherElementRange&&)` (1001-1013): `assert(size() == other.size());
+    if(!is_empty()) adl_copy(begin(other), end(other), begin())`. -/
+def assignElems (h : Heap α) (sb : Option BlockId) (sv : View) (db : Option BlockId) (dv : View) : Heap α :=
+  let h := h.check (dv.ext.eqv sv.ext)
+  let h := h.check (dv.numElements == sv.numElements)
+  copyElems h sb sv db dv
 
 /-- `array::operator=(const_subarray const& other)` array.hpp:1335-1343:
     same extensions → `static_::operator=(other)` (669-674) = `ref::operator=(other)` = element-wise through `elements()`;
@@ -276,6 +283,23 @@ def convAssign (h : Heap α) (self other : Arr) : Heap α × Arr :=
     (h1.copyN other.base self'.base other.numElements.toNat, self')
   else
     let (h1, tmp) := copyCtor h other
+    let (h2, self', tmp') := moveAssign h1 self tmp
+    (dtor h2 tmp', self')
+
+/-- `array::operator=(Range&& other)` array.hpp:1361-1379 — the overload `A = view` selects when the argument's static type is
+    `subarray` (not `const_subarray`): same extensions → `operator()() = other` (element-wise, array_ref.hpp:2141-2145);
+    same number of elements → `reshape(other.extensions())`, then element-wise; otherwise `operator=(static_cast<array>(other))`.
+    (README "Copy and assignment (and aliasing)": the view must not alias `*this`.) -/
+def rangeAssign (h : Heap α) (self : Arr) (sb : Option BlockId) (v : View) : Heap α × Arr :=
+  if Exts.eqv self.exts v.exts then
+    (assignElems h sb v self.base self.view, self)
+  else if self.numElements = Exts.numElements v.exts then
+    let (h1, self') := reshape h self v.exts
+    -- with fixes/assign-empty-view.patch: `if(num_elements() != 0) operator()() = other;`  (an array without elements reports
+    -- all-empty extensions, which need not be the view's: the unpatched code then fails the `extension()` assertion)
+    if self'.numElements = 0 then (h1, self') else (assignElems h1 sb v self'.base self'.view, self')
+  else
+    let (h1, tmp) := viewCtor h sb v
     let (h2, self', tmp') := moveAssign h1 self tmp
     (dtor h2 tmp', self')
 
@@ -354,7 +378,11 @@ def reextent (cfg : Cfg α) (h : Heap α) (self : Arr) (x : List Ext) (fill : Op
       | none => valueConstruct cfg h1 p tl.numElements
       | some v => h1.fillN p tl.numElements.toNat (some v)
     let is := Exts.inter self.exts tmp.exts
-    let h3 := assignElems h2 self.base (applyExts self.view is) p (applyExts tmp.view is)
+    -- with fixes/reextent-index-bases.patch: `if(is.num_elements() != 0) tmp.apply(is).elements() = this->apply(is).elements();`
+    -- (the unpatched code assigns the slices themselves, which asserts equal extensions — false as soon as an index base
+    --  differs — and slices a null `base_` when `*this` has no elements)
+    let h3 := if Exts.numElements is = 0 then h2
+              else copyElems h2 self.base (applyExts self.view is) p (applyExts tmp.view is)
     let h4 := deallocate h3 self
     (h4, tmp)
 
